@@ -137,6 +137,39 @@ FamConveyor(WL, CAP1) ==
     : w1 \in {3, 4}, l1 \in WL, l2 \in WL, pr \in {"FSS", "SSP"}, c1 \in CAP1,
       in2 \in {<<>>, <<1>>}, in3 \in {<<>>, <<2>>, <<1>>} }
 
+\* ---- FamPairs: several worker/facility pairs on one task -----------------------------------
+\* one workplace with two facilities, three workers with differing skills / operating licences /
+\* solo flags, individual absences of a worker and of a facility while allocated; task 1 needs
+\* a facility (several pairs), task 2 does not.
+FamPairs(WS, FSK, SOW, SOF, AB) ==
+  { Cfg("pairs", 1,
+        << [Task(6, 0, FALSE, 1, TRUE, 1, <<1>>, <<1>>, 0) EXCEPT !.wrule = wr, !.frule = fr],
+           Task(2, 0, FALSE, 1, FALSE, 0, <<1>>, <<>>, 1) >>,
+        <<>>, 1,
+        << Worker(1, <<ws[1], 1>>, fsk[1], 1, sow[1], wab, 0),
+           Worker(1, <<ws[2], 0>>, fsk[2], 2, sow[2], <<>>, 0),
+           Worker(1, <<ws[3], 1>>, fsk[3], 3, sow[3], <<>>, 0) >>,
+        << Facility(1, <<1, 0>>, 1, sof[1], fab), Facility(1, <<2, 0>>, 2, sof[2], <<>>) >>,
+        << [cap |-> 2, inputs |-> <<>>] >>,
+        << [space |-> 2, children |-> <<>>] >>,
+        Opt(<<>>, FALSE, "TSLACK", 12))
+    : ws \in WS, fsk \in [1..3 -> FSK], sow \in SOW, sof \in SOF, wab \in AB, fab \in AB,
+      wr \in {"SSP", "HSV"}, fr \in {"SSP", "HSV"} }
+
+\* ---- FamDag: a component with two parents ----------------------------------------------------
+FamDag ==
+  { Cfg("dag", 1,
+        << Task(w[1], 0, FALSE, 1, FALSE, 1, <<1>>, <<1, 2>>, 0),
+           Task(w[2], 0, FALSE, 1, FALSE, 2, <<1>>, <<2, 1>>, 1),
+           Task(w[3], 0, FALSE, 1, nf, 3, <<1>>, <<1, 2>>, 2) >>,
+        d, 1,
+        << Worker(1, <<1, 1, 1>>, <<1, 1>>, 1, FALSE, <<>>, 0), Worker(1, <<1, 1, 1>>, <<1, 1>>, 2, FALSE, <<>>, 0) >>,
+        << Facility(1, <<1, 1, 1>>, 1, FALSE, <<>>), Facility(2, <<1, 1, 1>>, 1, FALSE, <<>>) >>,
+        << [cap |-> 6, inputs |-> <<>>], [cap |-> 6, inputs |-> <<>>] >>,
+        << [space |-> 1, children |-> <<3>>], [space |-> 1, children |-> <<3>>], [space |-> 1, children |-> <<>>] >>,
+        Opt(<<>>, FALSE, "TSLACK", 12))
+    : w \in [1..3 -> {1, 2}], nf \in BOOLEAN, d \in {<<>>, <<<<3, 1, "FS">>>>, <<<<1, 2, "FS">>>>} }
+
 \* ---- FamSort: inputs of the four sorting functions ---------------------------------------
 \* A sort case is a small cfg (only the lists the function looks at are populated), the
 \* function, the rule mode, the task whose name is passed (t) and the target workplace (p),
@@ -262,6 +295,22 @@ Family(name, tier) ==
     [] name = "conveyor" -> IF tier = 1
                             THEN FamConveyor({<<1, 3>>, <<3, 1>>, <<1, 2, 3>>, <<2, 3>>}, {2, 4})
                             ELSE FamConveyor({<<1, 3>>, <<3, 1>>, <<1, 2, 3>>, <<3, 2, 1>>, <<2, 3>>, <<1, 2>>, <<1>>}, {2, 3, 4})
+    [] name = "pairs" -> IF tier = 1
+                         THEN FamPairs({<<1, 2, 1>>, <<2, 1, 1>>}, {<<1, 1>>, <<1, 0>>},
+                                       {<<FALSE, FALSE, FALSE>>, <<FALSE, TRUE, FALSE>>, <<TRUE, FALSE, FALSE>>, <<FALSE, FALSE, TRUE>>},
+                                       {<<FALSE, FALSE>>, <<TRUE, FALSE>>, <<FALSE, TRUE>>}, {<<>>, <<2, 1>>})
+                         ELSE FamPairs({<<1, 2, 1>>, <<2, 1, 1>>, <<1, 1, 2>>, <<2, 2, 2>>}, {<<1, 1>>, <<1, 0>>, <<0, 1>>},
+                                       [1..3 -> BOOLEAN], [1..2 -> BOOLEAN], {<<>>, <<0>>, <<1>>, <<2, 1>>})
+    [] name = "dag"   -> FamDag
+    \* two dependencies between the same pair of tasks
+    [] name = "deps2" -> { Cfg("deps2", 1, [t \in 1..3 |-> PlainTask(w[t], r[t] - 1)],
+                                <<<<1, 2, kk[1]>>, <<1, 2, kk[2]>>>> \o d23 \o d13, 1,
+                                [k \in 1..3 |-> PlainWorker([t \in 1..3 |-> IF t = k THEN s ELSE 0], 1)],
+                                <<>>, <<>>, <<>>, Opt(<<>>, FALSE, "TSLACK", 12))
+                           : kk \in { p \in Kinds \X Kinds : p[1] # p[2] }, w \in [1..3 -> {1, 2}], s \in {1, 2},
+                             r \in TwoOrders(3),
+                             d23 \in {<<>>} \cup { <<<<2, 3, k>>>> : k \in Kinds },
+                             d13 \in {<<>>, <<<<1, 3, "FS">>>>} }
     [] name = "sub"   -> IF tier = 1 THEN FamSub({1, 2, 3, 5, 60}, {<<>>, <<1>>})
                          ELSE FamSub({1, 2, 3, 5, 7, 60}, {<<>>, <<1>>, <<0, 2>>, <<3, 4>>})
     [] name = "pert"  -> IF tier = 1 THEN FamPert(3, {0, 1, 2}) \cup FamPert(4, {1, 2})
